@@ -19,11 +19,11 @@ NS = "NanoVerif.Scaling."
 OBLIGATIONS = [NS + t for t in [
     "div_mul_one", "upscale_scale_id", "upscale_scale_id_row", "minmax_range", "mean_centered", "standard_unit",
     "categorical_identity", "missing_to_zero_and_ignored", "var_nonneg", "clamp_is_identity",
-    "affine_upscale_same_predictor_row", "affine_upscale_same_predictor",
+    "affine_upscale_same_predictor_row", "affine_upscale_same_predictor", "affine_upscale_guard",
 ]]
 TRUSTED = [
-    "Lean 4.33.0 kernel; Mathlib modules Mathlib.Tactic.Ring/Linarith/FieldSimp/Positivity, Mathlib.Algebra.Order.Field.Basic "
-    "(only in Proofs/ScalingLemmas.lean and Props/C14.lean)",
+    "Lean 4.33.0 kernel; Mathlib modules Mathlib.Algebra.Order.Field.Basic, Mathlib.Algebra.Order.Field.Rat, "
+    "Mathlib.Tactic.Ring/Linarith/FieldSimp/LinearCombination/NormNum (only in Proofs/ScalingLemmas.lean and Props/C14.lean)",
     "axioms: at most propext, Classical.choice, Quot.sound (audited per theorem on every run)",
     "hand-written generic-scalar model NanoVerif/Model/Scaling.lean of src/dataset/stats.cpp (update, done, scale, upscale, "
     "make_scaling, nano::upscale); tied to the code by the correspondence run: harness/c14.cpp builds an in-memory "
